@@ -7,7 +7,9 @@
        (d^2 <= TightBound_x^2 + TightBound_y^2), is missing exactly for keypoints missing in the labels or the prediction.
    A case is one (configuration, provider) run: animals = sequence of [kps: seq of [kx, ky, vis]] in the order of the
    Evaluator's positive pairs (the driver maps a pair to its labelled animal by object identity), d = per pair, per node
-   [d (1/U px), nan]; n_animals = labelled animals with a visible node; fn = false negatives reported. *)
+   [d (1/U px), nan]; n_animals = labelled animals with a visible node; fn = false negatives reported.  own = the pair is an
+   animal with its own prediction (mutually nearest in the frame, by plain distance): the inference bound speaks about those;
+   for tiny animals, whose OKS values all underflow, the Evaluator's greedy choice may pair neighbours. *)
 EXTENDS InferPlane, Verdict, Json, IOUtils
 Cases == JsonDeserialize(IOEnv.TRACE_FILE)
 ASSUME VInit
@@ -28,7 +30,7 @@ Clause(c) ==
     ELSE IF \E k \in 1..Len(c.pairs) : \E n \in 1..Len(c.pairs[k].kps) :
               LET q == c.pairs[k].kps[n]
                   fc == c.pairs[k].cfg
-              IN q.vis /\ Sq(q.d \div 4) > Sq(TightBound(fc, q.kx, 2, fc.s) \div 4 + 1) + Sq(TightBound(fc, q.ky, 1, fc.s) \div 4 + 1)
+              IN q.vis /\ c.pairs[k].own /\ Sq(q.d \div 4) > Sq(TightBound(fc, q.kx, 2, fc.s) \div 4 + 1) + Sq(TightBound(fc, q.ky, 1, fc.s) \div 4 + 1)
          THEN "distance_beyond_inference_bound"
     ELSE "ok"
 Check == i >= 1 => VGive(Cases[i].id, Clause(Cases[i]))
